@@ -157,6 +157,32 @@ def reserveEntities (w : World) (count : Nat) : World × List Entity :=
       (List.range' newStart (newEnd - newStart)).map (fun id => (⟨id, 1⟩ : Entity))
   (w', fromFree ++ fresh)
 
+/-- ids are `u32`: the reservation calls refuse ("too many entities") to go past them -/
+def idLimit : Nat := 4294967296
+
+/-- `Entities::reserve_entity` including its `u32::try_from(..).expect("too many entities")`:
+`none` = the call panics -/
+def reserveEntityChecked (w : World) : Option (World × Entity) :=
+  if (w.reserveEntity).2.id < idLimit then some w.reserveEntity else none
+
+/-- `Entities::reserve_entities(count)` including the same check on the end of the range of new ids,
+with the returned iterator advanced `k` times only (the ids are claimed by the call, not by iterating) -/
+def reserveEntitiesPrefix (w : World) (count k : Nat) : Option (World × List Entity) :=
+  let rangeEnd := w.cursor
+  let rangeStart := rangeEnd - count
+  let w' := { w with cursor := rangeStart }
+  let lo := rangeStart.toNat
+  let hi := rangeEnd.toNat
+  let fromFree := (((w.pending.toList.drop lo).take (hi - lo)).take k).map (fun id => (⟨id, w.genOf id⟩ : Entity))
+  if rangeStart ≥ 0 then some (w', fromFree)
+  else
+    let base : Int := w.metas.size
+    let newEnd := (base - rangeStart).toNat
+    let newStart := (base - min rangeEnd 0).toNat
+    if newEnd < idLimit then
+      some (w', (fromFree ++ (List.range' newStart (min k (newEnd - newStart))).map (fun id => (⟨id, 1⟩ : Entity))).take k)
+    else none
+
 /-! ### Archetypes -/
 
 def findArch (archs : Array Arch) (ts : List Nat) : Option Nat :=
